@@ -65,7 +65,8 @@ def op(kind, **fields):
 
 def add_fp(d=I, ns=NSMASK, length=LEN, rsz=RSZ, ck=st.just(0), file=st.sampled_from([False] * 9 + [True])):
     return op('add_fp', d=d, ns=ns, len=length, sz=SZ, rsz=rsz, usz=st.integers(0, 4), lead=I, salt=I, mode=FMODE, ck=ck, file=file, reuse=REUSE, magic=MAGIC,
-              vtwin=st.one_of(st.just(0), st.just(0), st.just(0), st.just(0), st.just(0), st.just(0), st.integers(1, 1000)))
+              vtwin=st.one_of(st.just(0), st.just(0), st.just(0), st.just(0), st.just(0), st.just(0), st.integers(1, 1000)),
+              xtwin=st.one_of(st.just(0), st.just(0), st.just(0), st.just(0), st.just(0), st.just(0), st.integers(1, 1000)))
 
 
 def add_dir(d=I, ns=NSMASK, rsz=RSZ, sz=SZ):
@@ -324,11 +325,13 @@ BUDGETS = [255, 254, 230, 200, 180, 160, 140, 120, 110, 100, 96, 90, 84, 80, 76,
 
 def foreign_style(x):
     """Style of the independent re-mastering, decoded from one drawn integer (so that it shrinks and replays as data)."""
+    x0 = x
+
     def take(n):
         nonlocal x
         x, r = divmod(x, n)
         return r
-    return {'family': take(3), 'su_order': take(5), 'keep_rr': bool(take(2)), 'budget': BUDGETS[take(len(BUDGETS))], 'split_nm': bool(take(2)),
+    return {'ecma': bool((x0 * 2654435761 >> 9) & 1), 'family': take(3), 'su_order': take(5), 'keep_rr': bool(take(2)), 'budget': BUDGETS[take(len(BUDGETS))], 'split_nm': bool(take(2)),
             'split_sl': bool(take(2)), 'greedy': bool(take(2)), 'gap': take(3), 'zero': take(4), 'pad': (0, 0, 150, 3)[take(4)], 'mki': bool(take(2)),
             'dfs': bool(take(2)), 'jfirst': bool(take(2)), 'perm': [take(11) + 1 for _ in range(6)]}
 
